@@ -1,0 +1,43 @@
+//go:build verif
+
+package md
+
+// Add-only verification hook for property C35 (inline main loop); see
+// zz_verif_c35.go.
+
+// VerifC35InlineOp is one rendered inline operation: Kind 0 text, 1 code span,
+// 2 newline, 3 hard line break, 4/5 emphasis start/end, 6/7 strong start/end,
+// 8 anything else (links, images, raw HTML, autolinks).
+type VerifC35InlineOp struct {
+	Kind int
+	Text string
+}
+
+// VerifC35RenderInline runs the real inline parser on text.
+func VerifC35RenderInline(text string) []VerifC35InlineOp {
+	initRegexpsOnce.Do(initRegexps)
+	var out []VerifC35InlineOp
+	for _, op := range renderInline(text) {
+		k := 8
+		switch op.Type {
+		case OpText:
+			k = 0
+		case OpCodeSpan:
+			k = 1
+		case OpNewLine:
+			k = 2
+		case OpHardLineBreak:
+			k = 3
+		case OpEmphasisStart:
+			k = 4
+		case OpEmphasisEnd:
+			k = 5
+		case OpStrongEmphasisStart:
+			k = 6
+		case OpStrongEmphasisEnd:
+			k = 7
+		}
+		out = append(out, VerifC35InlineOp{k, op.Text})
+	}
+	return out
+}
